@@ -486,4 +486,112 @@ theorem foldlM_fixed {α : Type} (f : State → α → TxM State) (hf : ∀ s a 
   obtain ⟨g, _, h⟩ := bind_ok h
   exact storePlace_fixed _ _ _ _ _ _ _ _ _ h
 
+/-! ### fault reports -/
+/-- the outcome of a state transformer leaves the fixed part alone (nothing is claimed about a failure) -/
+def okFixed (s : State) (r : TxM State) : Prop :=
+  match r with
+  | .ok s' => fixedPart s' = fixedPart s
+  | .error _ => True
+
+theorem okFixed_elim {s s' : State} {r : TxM State} (h : okFixed s r) (hr : r = .ok s') : fixedPart s' = fixedPart s := by
+  subst hr; exact h
+
+@[simp] theorem setFault_fixed (s : State) (f : Fault) : fixedPart (s.setFault f) = fixedPart s := rfl
+@[simp] theorem removeFault_fixed (s : State) (f : Fault) : fixedPart (s.removeFault f) = fixedPart s := rfl
+@[simp] theorem fishAdd_fixed (s : State) (k : Nat × Nat) (v : Dec) : fixedPart (fishAdd s k v) = fixedPart s := by
+  unfold fishAdd; split <;> rfl
+@[simp] theorem faultBySpShard_fixed (s : State) (p : Addr) (sh : Nat) : fixedPart (s.faultBySpShard p sh).1 = fixedPart s := by
+  unfold State.faultBySpShard
+  repeat' split
+  all_goals rfl
+
+theorem reportStep_fixed (c p : Addr) (s : State) (x : FaultIn × StrId) : fixedPart (reportStep c p s x) = fixedPart s := by
+  unfold reportStep
+  dsimp only
+  repeat' split
+  all_goals (first | rfl | simp)
+
+@[grind →] theorem saoReportFaults_fixed (s s' : State) (c p : Addr) (fs : List FaultIn) (ids : List StrId)
+    (h : saoReportFaults s c p fs ids = .ok s') : fixedPart s' = fixedPart s := by
+  unfold saoReportFaults at h
+  split at h
+  · cases h
+  · split at h
+    · cases h
+    · simp only [pure, Except.pure, Except.ok.injEq] at h
+      rw [← h]
+      exact foldl_fixed _ (reportStep_fixed c p) _ _
+
+theorem okFixed_of_eq {s s1 : State} {r : TxM State} (h : fixedPart s1 = fixedPart s) (hr : okFixed s1 r) : okFixed s r := by
+  unfold okFixed at *
+  split
+  · rename_i s' _; simp only at hr; rw [hr, h]
+  · trivial
+
+theorem recoverSettle_okFixed (pool : Pool) (ik : Nat) (s : State) (o : Order) (org fm : Fault) (pl : Pledge) :
+    okFixed s (recoverSettle pool ik s o org fm pl) := by
+  unfold recoverSettle
+  dsimp only
+  split
+  · simp [okFixed, throw, throwThe, MonadExceptOf.throw]
+  · split
+    · simp [okFixed, throw, throwThe, MonadExceptOf.throw]
+    · simp only [okFixed, pure, Except.pure]
+      rw [removeFault_fixed, setPledge_fixed, foldl_fixed _ (fun s c => fishAdd_fixed s _ _), fishAdd_fixed]
+      split <;> rfl
+
+theorem recoverStep_okFixed (c p : Addr) (pool : Pool) (ik : Nat) (s : State) (f : FaultIn) :
+    okFixed s (recoverStep c p pool ik s f) := by
+  have hb := faultBySpShard_fixed s f.provider f.shardId
+  unfold recoverStep
+  split
+  · simp [okFixed, pure, Except.pure]
+  split
+  · simp [okFixed, pure, Except.pure]
+  split
+  · simp [okFixed, pure, Except.pure]
+  split
+  · simp [okFixed, pure, Except.pure]
+  split
+  · simp [okFixed, pure, Except.pure]
+  -- from here on the state is the one `faultBySpShard` returned
+  generalize hq : s.faultBySpShard f.provider f.shardId = q at hb ⊢
+  obtain ⟨s1, org?⟩ := q
+  (try dsimp only at hb ⊢)
+  split
+  · simp only [okFixed, pure, Except.pure]; exact hb
+  split
+  · simp only [okFixed, pure, Except.pure]; exact hb
+  (try dsimp only)
+  split
+  · simp only [okFixed, pure, Except.pure]; exact hb
+  · split
+    · split
+      · exact okFixed_of_eq hb (recoverSettle_okFixed _ _ _ _ _ _ _)
+      · simp only [okFixed, pure, Except.pure]; rw [setFault_fixed]; exact hb
+    · simp only [okFixed, pure, Except.pure]; rw [setFault_fixed]; exact hb
+
+@[grind →] theorem saoRecoverFaults_fixed (s s' : State) (c p : Addr) (fs : List FaultIn) (ik : Nat)
+    (h : saoRecoverFaults s c p fs ik = .ok s') : fixedPart s' = fixedPart s := by
+  unfold saoRecoverFaults at h
+  dsimp only at h
+  split at h
+  · rename_i node hn
+    -- the role check is a guard: whichever branch, the state it hands on is `s`
+    have key : ∀ (pool : Pool), fs.foldlM (recoverStep c p pool ik) s = .ok s' → fixedPart s' = fixedPart s := by
+      intro pool hf
+      exact foldlM_fixed _ (fun s a s' h => okFixed_elim (recoverStep_okFixed c p pool ik s a) h) _ _ _ hf
+    split at h
+    · split at h
+      · exact (throw_bind_ne h).elim
+      · split at h
+        · exact key _ h
+        · cases h
+    · split at h
+      · exact (throw_bind_ne h).elim
+      · split at h
+        · exact key _ h
+        · cases h
+  · cases h
+
 end SaoVerif
